@@ -165,6 +165,28 @@ func run(c *enum.Ctx) {
 			cases = append(cases, kase{Format: "bed", Typ: typ, Width: w})
 		}
 	}
+	// lines around and beyond the 4096-byte buffer of bufio: long chrom / name, many blocks; a short
+	// record before and after so that whatever the long line leaves behind is seen
+	short := featgen.Bed{Chrom: "c", Start: 1, End: 9, Name: "n", Score: 3, Strand: 1, RGB: rgbs[1], BlockSizes: []int{3}, BlockStarts: []int{0}}
+	for _, n := range []int{4080, 4087, 4088, 4089, 4090, 4091, 4092, 4093, 4094, 4095, 4096, 4097, 8192, 12289} {
+		long := short
+		long.Chrom = strings.Repeat("C", n)
+		cases = append(cases, kase{Format: "bed", Bed: []featgen.Bed{short, long, short}, Typ: 3, Width: 3})
+		long = short
+		long.Name = strings.Repeat("N", n)
+		for _, w := range []int{4, 6, 12} {
+			cases = append(cases, kase{Format: "bed", Bed: []featgen.Bed{short, long, short}, Typ: 12, Width: w})
+		}
+	}
+	for _, nb := range []int{100, 400, 683, 1500} {
+		long := short
+		long.BlockSizes, long.BlockStarts = make([]int, nb), make([]int, nb)
+		for i := range long.BlockSizes {
+			long.BlockSizes[i], long.BlockStarts[i] = i%7+1, i*10
+		}
+		long.End = long.Start + nb*10
+		cases = append(cases, kase{Format: "bed", Bed: []featgen.Bed{short, long, short}, Typ: 12, Width: 12})
+	}
 	// GFF
 	scores := []string{"", "0", "-1.5", "0.1", "tiny", "max", "+Inf", "-Inf", "3"}
 	attrs := [][]featgen.Attr{nil, {{"ID", "x"}}, {{"Tag_1", "v w"}, {"t2", ""}}, {{"a", "1"}, {"B2b", "\"quoted text\""}, {"c_3", "z"}}}
@@ -222,6 +244,32 @@ func run(c *enum.Ctx) {
 			for _, w := range []int{1, 2, 60} {
 				cases = append(cases, kase{Format: "gff", Gff: []featgen.Gff{s}, Header: hdr, SeqW: w})
 				cases = append(cases, kase{Format: "gff", Gff: []featgen.Gff{gffs[i], s, regions[i%len(regions)], s}, Header: hdr, SeqW: w})
+			}
+		}
+		// two different inline sequences read through one reader (every ordered pair): the first must
+		// still read as itself after the second has been parsed
+		for i, s1 := range seqs {
+			for j, s2 := range seqs {
+				if i != j {
+					s2.SeqName = "s2"
+					cases = append(cases, kase{Format: "gff", Gff: []featgen.Gff{s1, s2, gffs[i]}, Header: hdr, SeqW: []int{1, 2, 60}[(i+j)%3]})
+				}
+			}
+		}
+		// long lines: attribute value, sequence name and inline sequence lines beyond bufio's 4096 bytes
+		for _, n := range []int{4000, 4090, 4095, 4096, 4097, 8192, 12289} {
+			g := gffs[0]
+			g.Attrs = []featgen.Attr{{"ID", strings.Repeat("v", n)}}
+			cases = append(cases, kase{Format: "gff", Gff: []featgen.Gff{gffs[1], g, gffs[2]}, Header: hdr, SeqW: 60})
+			g = gffs[0]
+			g.SeqName = strings.Repeat("S", n)
+			cases = append(cases, kase{Format: "gff", Gff: []featgen.Gff{gffs[1], g, gffs[2]}, Header: hdr, SeqW: 60})
+			b := make([]byte, n)
+			for i := range b {
+				b[i] = "acgtn"[(i*3+i/7)%5]
+			}
+			for _, w := range []int{60, 4095, 4096, 20000} {
+				cases = append(cases, kase{Format: "gff", Gff: []featgen.Gff{gffs[1], {Kind: "seq", SeqName: "big", Moltype: "DNA", Letters: string(b)}, gffs[2], seqs[3]}, Header: hdr, SeqW: w})
 			}
 		}
 		cases = append(cases, kase{Format: "gff", Header: hdr, SeqW: 60})
